@@ -470,7 +470,7 @@ struct access
                 const auto& e = p.parse_table[s][c];
                 long arg = e.arg == uninitialized16 ? -1 : long(e.arg);
                 if (e.kind == P::parse_table_entry_kind::reduce && arg >= 0 && size_t(arg) < P::rule_count) arg = p.gi.rule_infos[arg].r_idx;
-                o += "[\""; o += kind_name(e.kind); o += "\"," + std::to_string(arg) + "," + std::to_string(int(e.has_sr_conflict)) + "]";
+                o += "[\""; o += kind_name(e.kind); o += "\"," + std::to_string(arg) + "," + std::to_string(int(e.has_sr_conflict)) + "," + std::to_string(rr_flag(e, 0)) + "]";
             }
             o += ']';
         }
@@ -478,6 +478,10 @@ struct access
         if constexpr (P::generate_lexer) dump_dfa(p.lexer_sm, o); else o += "null";
         o += "}\n";
     }
+
+    // accept/reduce conflict flag of a cell, when the library version under test has one
+    template<typename E> static auto rr_flag(const E& e, int) -> decltype(int(e.has_rr_conflict)) { return int(e.has_rr_conflict); }
+    template<typename E> static int rr_flag(const E&, long) { return 0; }
 
     template<typename Dfa>
     static void dump_dfa(const Dfa& sm, std::string& o)
